@@ -123,6 +123,11 @@ fn remap_slot(op: &mut Op, from: usize, to: usize) {
             m(dst)
         }
         Op::Build { dst, .. } => m(dst),
+        Op::Operator { dst, a, b, .. } => {
+            m(dst);
+            m(a);
+            m(b)
+        }
     }
 }
 
@@ -138,6 +143,11 @@ fn used_slots(ops: &[Op]) -> Vec<usize> {
                 u.push(*dst)
             }
             Op::Build { dst, .. } => u.push(*dst),
+            Op::Operator { dst, a, b, .. } => {
+                u.push(*dst);
+                u.push(*a);
+                u.push(*b)
+            }
         }
     }
     u.sort();
